@@ -85,7 +85,19 @@ def check(prop, tier, seed, replay=None):
         use = probes if '17' not in cfg.split('-')[0] else [p for p in probes if 'std::span' not in p[0]]
         try: exe, secs, cached = C.cxx_build('c17probe', sources(use), config=cfg)
         except C.BuildError as e:
-            rep.broke(dict(correspondence='C17 probe build (%s): a deduction the specification prescribes does not compile' % cfg, why=str(e), log=e.log[:2500] + e.log[-1500:])); continue
+            # which probe is ill-formed?  every probe is one source line `out[k] = <expression>;` of a generated TU
+            import re
+            srcs = dict(sources(use)); hit = []
+            for m in re.finditer(r'(c17_tu\d+\.cpp):(\d+):\d+:', e.log):
+                ln = srcs.get(m.group(1), '').split('\n'); i = int(m.group(2)) - 1
+                mm = re.match(r'\s*out\[(\d+)\] = (.*);$', ln[i]) if 0 <= i < len(ln) else None
+                if mm and int(mm.group(1)) not in [h[0] for h in hit]: hit.append((int(mm.group(1)), mm.group(2)))
+            if hit:
+                for k, ex in hit[:3]:
+                    rep.violation(dict(kind='a-deduction-/-construction-the-specification-prescribes-is-ill-formed', probe=[use[k][0], use[k][1], use[k][2]], config=cfg,
+                                       compiler_errors=[l for l in e.log.split('\n') if 'error' in l][:4]))
+            else: rep.broke(dict(correspondence='C17 probe build (%s): a deduction the specification prescribes does not compile' % cfg, why=str(e), log=e.log[:2500] + e.log[-1500:]))
+            continue
         out = C.run([exe]).stdout.split('\n')
         for k, (ex, want, m) in enumerate(use):
             rep.cov['evaluations'] += 1; rep.cov['traces_validated_against_impl'] += 1
